@@ -79,6 +79,9 @@ TraceCase ==
                         /\ \A j \in 1..nc :
                               /\ SameQ(z.arr[a][b][j], RateOf(BaseName(n), OneVsAll(el(a, b))[j]))
                               /\ SameQ(z.dict[a][b][j], z.arr[a][b][j])>>,
+          (* beyond the listed property: indexing / equality / array conversion / class count   *)
+          <<"EXT.cm_container_protocol", ~ok \/ ~("ext" \in DOMAIN e) \/
+               (e.ext.nb_classes = nc /\ e.ext.getitem /\ e.ext.array /\ e.ext.eq)>>,
           <<"C05.stacked", ~ok \/ \A n \in MetricNames :
                LET M2 == Build(SwapLP(smp), cls) IN
                /\ Len(e.stacked[n]) = 2 /\ vec(e.stacked[n][1]) /\ vec(e.stacked[n][2])
